@@ -317,19 +317,19 @@ func (c *ConfigSynonym) encode(pe packetEncoder, version int16) (err error) {
 func (c *ConfigSynonym) decode(pd packetDecoder, version int16) error {
 	name, err := pd.getString()
 	if err != nil {
-		return nil
+		return err
 	}
 	c.ConfigName = name
 
 	value, err := pd.getString()
 	if err != nil {
-		return nil
+		return err
 	}
 	c.ConfigValue = value
 
 	source, err := pd.getInt8()
 	if err != nil {
-		return nil
+		return err
 	}
 	c.Source = ConfigSource(source)
 	return nil
